@@ -6,10 +6,30 @@
     ([FPanic]); a failed [unwrap] is such a panic too.  [wfw] is what has to survive: the list is a
     well-formed chain of allocated, initialised nodes between the sentinels and every index entry
     points, through the key stored in the node, at a linked node (linked nodes without an index
-    entry leak).  PARTIAL: RawLRU only (the composite caches are covered by panic injection on the
-    implementation); "no key or value is dropped twice" is decided on the implementation by the
-    drop ledger of the harness under injection, not by a theorem. *)
-From VF Require Import Base Lru Heap HeapFacts HeapOps HeapRun Fault FaultFacts.
+    entry leak).
+
+    The composite caches (SegmentedCache, TwoQueueCache, AdaptiveCache, WTinyLFUCache) are several such
+    lists in one heap, with nodes moved between them as raw pointers.  fault/FaultPrim.v gives the
+    crate-internal primitives they are written with the same ticks, and a machine [gstep] that runs
+    ANY program over the public operations and these primitives on a family of lists, the nodes in
+    flight named by position (a program cannot invent a pointer or use one twice); a panic loses
+    the nodes in flight.  [C18_family_*]: every such program, every history of such programs with
+    panics anywhere, keeps every list [wfw] and the lists and nodes in flight disjoint, and makes no
+    memory error — whatever the program decides, so in particular for the decision logic of the four
+    caches.  That their code is such a program is read from the source and re-checked on every run by
+    tools/alphabet_audit.py (every raw-level access the four sources make is one of the actions);
+    for the heap-level models of C03, which are tied to the code at node identity, it is a theorem:
+    every operation of [hs_step] / [ht_step] / [ha_step] / [hw_step] except the iterators (which call no user
+    code), Clone included, is the run, with no fuse, of a program of actions, and that program run with ANY fuse ends or panics
+    in a family and makes no memory error ([C18_slru_step], [C18_twoq_step], [C18_arc_step],
+    [C18_wtiny_step]).
+
+    PARTIAL: "no key or value is dropped twice" is decided on the implementation by the drop
+    ledger of the harness under injection, not by a theorem; the composite caches' own tick
+    positions are not replayed against the code (panic injection on the implementation covers them). *)
+From VF Require Import Base Iter Lru Slru TwoQ Arc Tiny WTiny SlruFacts TwoQFacts ArcFacts WTinyFacts Heap HeapFacts HeapOps HeapRun HeapMulti
+  HeapIterDef HeapSlruDef HeapTwoQDef HeapArcDef HeapWTinyDef HeapSlru HeapTwoQ HeapArc HeapWTiny
+  Fault FaultFacts FaultErase FaultPrim FaultFamily FaultProg.
 From Coq Require Import List Arith Permutation.
 Import ListNotations.
 
@@ -52,8 +72,173 @@ Proof. split; [exact f_put_erase|split; [exact f_get_mut_erase|split; [exact f_r
 (** the put that recycles a node, the sharpest case: whichever call panics — the lookup, the removal
     of the old key, the insertion of the new one, the callback — the state is [wfw] *)
 Theorem C18_put : forall f h q l k v,
-  wfw h q l -> fsafe (fun '(f1, h1, q1, r) => okp h1 q1) (f_put f h q k v).
+  wfw h q l -> fsafex h q l (fun '(f1, h1, q1, r) => okx h q l h1 q1) (f_put f h q k v).
 Proof. exact f_put_safe. Qed.
+
+(** every operation with its footprint: at the end or at a panic the list is [wfw], it gained only
+    freshly allocated nodes, and no cell outside its own nodes that existed before was written *)
+Theorem C18_footprint : forall f h q l o,
+  wfw h q l ->
+  fsafex h q l (fun '(f1, h1, q1, r) => exists qm, okx h q l h1 qm /\ upto_cap qm q1 (hop_cap o (hcap qm))) (fstep f h q o).
+Proof. exact fstep_safex. Qed.
+
+(** the same for Drop: whether it ends or panics, nothing outside the list is touched *)
+Theorem C18_drop_footprint : forall f h q l,
+  wfw h q l ->
+  match f_drop f h q with
+  | FOk h1 => fresh h1 = fresh h /\ forall x, outside q l x -> cells h1 x = cells h x
+  | FPanic h1 _ => fresh h1 = fresh h /\ forall x, outside q l x -> cells h1 x = cells h x
+  | FErr _ => False
+  end.
+Proof. exact f_drop_frame. Qed.
+
+(** ** the composite caches: any program over the primitives, on a family of lists *)
+
+(** one action, any fuse: the family stays a family (every list [wfw], lists and nodes in flight
+    pairwise disjoint, every list of capacity > 0), or the action panics in such a state *)
+Theorem C18_family_step : forall f s o, ginv s -> gop_ok o -> gsafe (gstep f s o).
+Proof. exact gstep_safe. Qed.
+
+(** a program (the fuse runs through its actions; a panic ends it) *)
+Theorem C18_family_program : forall p f s, ginv s -> Forall gop_ok p -> gsafe (gprog f s p).
+Proof. exact gprog_safe. Qed.
+
+(** every history of programs from nothing, each with its own fuse, later ones starting in what a
+    panic left behind, drops included: it runs to the end, no memory error *)
+Theorem C18_family_history : forall ps,
+  Forall (fun fp => Forall gop_ok (snd fp)) ps -> exists s', grun ginit ps = Some s' /\ ginv s'.
+Proof. exact ghistory_safe. Qed.
+
+(** the separation step behind it: an operation on one list that was handed some nodes in flight *)
+Theorem C18_family_separation : forall h h' F1 q l F2 flA flB q' l' fl',
+  famw h (F1 ++ (q, l) :: F2) (flA ++ flB) ->
+  wfw h' q' l' -> extW (addrs flA) h q l h' q' l' ->
+  (forall a k v, In (a, (k, v)) fl' -> HeapPrim.inflight h' a k v) ->
+  NoDup (fp (q', l') ++ addrs fl') ->
+  (forall x, In x (addrs fl') -> In x (addrs l) \/ In x (addrs flA) \/ fresh h <= x)%nat ->
+  famw h' (F1 ++ (q', l') :: F2) (fl' ++ flB).
+Proof. exact famw_step. Qed.
+
+(** with no fuse the primitives are those of the heap machine, of which the heap-level composite caches
+    of C03 are made *)
+Theorem C18_primitives_erase :
+  (forall h q k r, h_remove_ent h q k = HOk r -> f_remove_ent None h q k = FOk (None, fst (fst r), snd (fst r), snd r)) /\
+  (forall h q r, h_remove_lru_in h q = HOk r -> f_remove_lru_in None h q = FOk (None, fst (fst r), snd (fst r), snd r)) /\
+  (forall h q n r, h_put_or_evict_nonnull h q n = HOk r ->
+                   f_put_or_evict_nonnull None h q n = FOk (None, fst (fst r), snd (fst r), snd r)) /\
+  (forall h q n r, h_put_nonnull h q n = HOk r -> f_put_nonnull None h q n = FOk (None, fst (fst r), snd (fst r), snd r)).
+Proof.
+  split; [exact f_remove_ent_erase|split; [exact f_remove_lru_in_erase|split; [exact f_put_or_evict_erase|exact f_put_nonnull_erase]]].
+Qed.
+
+(** with no fuse the fault machine is the heap machine, for every public operation *)
+Theorem C18_erase_all : forall h q o h' q' out,
+  hstep h q o = HOk (h', q', out) -> fstep None h q o = FOk (None, h', q', out).
+Proof. exact fstep_erase. Qed.
+
+(** the heap-level composite caches of C03: each operation is a program over the primitives (chosen as
+    the code chooses its branches), and that program is safe under every fuse *)
+Theorem C18_slru_step : forall h s la lb o h' s' out f,
+  fam h [(hprob s, la); (hprot s, lb)] [] -> (0 < hcap (hprob s))%nat -> (0 < hcap (hprot s))%nat ->
+  hs_step h s o = HOk (h', s', out) ->
+  exists p, Forall gop_ok p /\ gprog None (gs_of [] h s) p = GOk None (gs_of [] h' s') /\ gsafe (gprog f (gs_of [] h s) p).
+Proof. exact slru_step_panic_safe_all. Qed.
+
+Theorem C18_twoq_step : forall h s lr lf lg o h' s' out f,
+  fam h [(tq_r s, lr); (tq_f s, lf); (tq_g s, lg)] [] ->
+  (0 < hcap (tq_r s))%nat -> (0 < hcap (tq_f s))%nat -> (0 < hcap (tq_g s))%nat ->
+  (forall i kd pre pa pb, o <> QIter i kd pre pa pb) -> ht_step h s o = HOk (h', s', out) ->
+  exists p fl, Forall gop_ok p /\ gprog None (gq_of h s) p = GOk None (gq_fl h' s' fl) /\ gsafe (gprog f (gq_of h s) p).
+Proof. exact twoq_step_panic_safe. Qed.
+
+Theorem C18_arc_step : forall h s l1 l2 l3 l4 o h' s' out f,
+  fam h [(ha_t1 s, l1); (ha_b1 s, l2); (ha_t2 s, l3); (ha_b2 s, l4)] [] ->
+  (0 < hcap (ha_t1 s))%nat -> (0 < hcap (ha_b1 s))%nat -> (0 < hcap (ha_t2 s))%nat -> (0 < hcap (ha_b2 s))%nat ->
+  (forall i kd pre pa pb, o <> AIter i kd pre pa pb) -> ha_step h s o = HOk (h', s', out) ->
+  exists p, Forall gop_ok p /\ gprog None (ga_of h s) p = GOk None (ga_of h' s') /\ gsafe (gprog f (ga_of h s) p).
+Proof. exact arc_step_panic_safe. Qed.
+
+Theorem C18_wtiny_step : forall h s la lb lw o h' s' out f,
+  fam h [(hprob (hw_slru s), la); (hprot (hw_slru s), lb); (hw_lru s, lw)] [] ->
+  (0 < hcap (hprob (hw_slru s)))%nat -> (0 < hcap (hprot (hw_slru s)))%nat -> (0 < hcap (hw_lru s))%nat ->
+  hw_step h s o = HOk (h', s', out) ->
+  exists p qs, Forall gop_ok p /\ Permutation qs (gls (gw_of h' s')) /\
+               gprog None (gw_of h s) p = GOk None (mkG h' qs []) /\ gsafe (gprog f (gw_of h s) p).
+Proof. exact wtiny_step_panic_safe_all. Qed.
+
+(** [Clone for RawLRU] followed by the drop of the original, as a program: [new], then per entry the [Clone] of
+    the key and of the value (ticks of class [TClone]) and a [put]; safe under every fuse *)
+Theorem C18_rawlru_clone : forall h q l h' q' f,
+  wf h q l -> (forall a, outside q l a -> cells h a = Free) -> (0 < hcap q)%nat -> h_clone_replace h q = HOk (h', q') ->
+  exists p, Forall gop_ok p /\ gprog None (mkG h [q] []) p = GOk None (mkG h' [q'] []) /\ gsafe (gprog f (mkG h [q] []) p).
+Proof. exact rawlru_clone_panic_safe. Qed.
+
+(** end to end: any history of operations from [new] (no panic: the heap-level model of C03 describes it), then one
+    more operation as the program it is with ANY fuse, then ANY programs over the primitives with any fuses — what
+    the cache's code does in the states a panic leaves behind, which no model of its decisions describes —, drops
+    included: never a memory error, always a family *)
+Theorem C18_slru_history : forall pc fc os o f ps,
+  (1 <= pc)%nat -> (1 <= fc)%nat -> Forall (fun fp => Forall gop_ok (snd fp)) ps ->
+  exists h s outs,
+    hs_run (fst (hs_new heap0 pc fc)) (snd (hs_new heap0 pc fc)) os = HOk (h, s, outs) /\
+    ginv (gs_of [] h s) /\
+    forall h' s' out, hs_step h s o = HOk (h', s', out) ->
+      exists p, Forall gop_ok p /\ gprog None (gs_of [] h s) p = GOk None (gs_of [] h' s') /\
+        match gprog f (gs_of [] h s) p with
+        | GOk _ s1 | GPanic s1 => exists s2, grun s1 ps = Some s2 /\ ginv s2
+        | GErr _ => False
+        end.
+Proof. exact slru_history_panic_safe. Qed.
+
+Theorem C18_twoq_history : forall size rs es os o f ps,
+  (1 <= size)%nat -> (1 <= es)%nat -> Forall qop_ok os -> (forall i kd pre pa pb, o <> QIter i kd pre pa pb) ->
+  Forall (fun fp => Forall gop_ok (snd fp)) ps ->
+  exists h s outs,
+    ht_run (fst (ht_new heap0 size rs es)) (snd (ht_new heap0 size rs es)) os = HOk (h, s, outs) /\
+    ginv (gq_of h s) /\
+    forall h' s' out, ht_step h s o = HOk (h', s', out) ->
+      exists p fl, Forall gop_ok p /\ gprog None (gq_of h s) p = GOk None (gq_fl h' s' fl) /\ after_prog f (gq_of h s) p ps.
+Proof. exact twoq_history_panic_safe. Qed.
+
+Theorem C18_arc_history : forall size os o f ps,
+  (1 <= size)%nat -> Forall aop_ok os -> (forall i kd pre pa pb, o <> AIter i kd pre pa pb) ->
+  Forall (fun fp => Forall gop_ok (snd fp)) ps ->
+  exists h s outs,
+    ha_run (fst (ha_new heap0 size)) (snd (ha_new heap0 size)) os = HOk (h, s, outs) /\
+    ginv (ga_of h s) /\
+    forall h' s' out, ha_step h s o = HOk (h', s', out) ->
+      exists p, Forall gop_ok p /\ gprog None (ga_of h s) p = GOk None (ga_of h' s') /\ after_prog f (ga_of h s) p ps.
+Proof. exact arc_history_panic_safe. Qed.
+
+Theorem C18_wtiny_history : forall t kh wc pc fc os o f ps,
+  wt_inv (mkWTiny t (lru_new wc false) (slru_new pc fc) kh) ->
+  Forall (fun fp => Forall gop_ok (snd fp)) ps ->
+  exists h s outs,
+    hw_run (fst (hw_new heap0 t kh wc pc fc)) (snd (hw_new heap0 t kh wc pc fc)) os = HOk (h, s, outs) /\
+    ginv (gw_of h s) /\
+    forall h' s' out, hw_step h s o = HOk (h', s', out) ->
+      exists p qs, Forall gop_ok p /\ Permutation qs (gls (gw_of h' s')) /\
+                   gprog None (gw_of h s) p = GOk None (mkG h' qs []) /\ after_prog f (gw_of h s) p ps.
+Proof. exact wtiny_history_panic_safe. Qed.
+
+(** user code called by the composite cache itself (the KeyHasher of W-TinyLFU, the drop of a pair a
+    primitive handed back) may sit between any two actions of the program: with ticks added anywhere
+    the run without fuse is the same and every fuse is survived *)
+Theorem C18_ticks_anywhere : forall s s' p p' f,
+  ginv s -> Forall gop_ok p -> gprog None s p = GOk None s' -> with_ticks p p' ->
+  gprog None s p' = GOk None s' /\ gsafe (gprog f s p').
+Proof. exact prog_with_ticks_safe. Qed.
+
+(** non-vacuity: SegmentedCache::put promoting into a full protected segment, as a program; the hash
+    of the promoted key panics after the node is linked; later operations and both drops run *)
+Theorem C18_family_witness :
+  match grun ginit [(None, slru_setup); (Some (THash, 2%nat), slru_promote);
+                    (None, [GPub 1 (HPeek 2); GPub 0 (HPut 3 30); GPub 1 (HPut 4 40)]%Z);
+                    (Some (TDropV, 0%nat), [GDrop 0]); (None, [GDrop 0])] with
+  | Some s => gls s = [] /\ gfl s = []
+  | None => False
+  end.
+Proof. exact promote_panics_and_goes_on. Qed.
 
 (** a liveness gap found on the way (outside C18): after a fault, [resize]'s loop
     [while map.len() > cap { remove_lru() }] can make no progress *)
@@ -72,3 +257,22 @@ Print Assumptions C18_wf.
 Print Assumptions C18_erase.
 Print Assumptions C18_put.
 Print Assumptions C18_resize_may_spin.
+Print Assumptions C18_footprint.
+Print Assumptions C18_drop_footprint.
+Print Assumptions C18_family_step.
+Print Assumptions C18_family_program.
+Print Assumptions C18_family_history.
+Print Assumptions C18_family_separation.
+Print Assumptions C18_primitives_erase.
+Print Assumptions C18_family_witness.
+Print Assumptions C18_erase_all.
+Print Assumptions C18_slru_step.
+Print Assumptions C18_twoq_step.
+Print Assumptions C18_arc_step.
+Print Assumptions C18_wtiny_step.
+Print Assumptions C18_rawlru_clone.
+Print Assumptions C18_ticks_anywhere.
+Print Assumptions C18_slru_history.
+Print Assumptions C18_twoq_history.
+Print Assumptions C18_arc_history.
+Print Assumptions C18_wtiny_history.
